@@ -3619,6 +3619,26 @@ namespace gch
         append_range (first, last, iterator_cat { });
       }
 
+      template <typename ForwardIt,
+                typename std::enable_if<! std::is_assignable<
+                  value_ty&,
+                  decltype (*std::declval<ForwardIt> ())>::value>::type * = nullptr>
+      GCH_CPP20_CONSTEXPR
+      void
+      assign_with_range (ForwardIt first, ForwardIt last, std::forward_iterator_tag)
+      {
+        using iterator_cat = typename std::iterator_traits<ForwardIt>::iterator_category;
+
+        // Check the length before destroying anything so that the container
+        // is left unchanged if the range is too long.
+        if (get_max_size () < external_range_length (first, last))
+          throw_allocation_size_error ();
+
+        // If not assignable then destroy all elements and append.
+        erase_all ();
+        append_range (first, last, iterator_cat { });
+      }
+
       // Ie. move-if-noexcept.
       struct strong_exception_policy
       { };
